@@ -31,7 +31,7 @@ def ISwf (f : State → Nat → Nat → Bool → State) : Prop :=
     Ok (f s t name d) (Inv C W none (f s t name d) ∧ G s (f s t name d))
 
 def IUr (f : State → Nat → Nat → State) : Prop :=
-  ∀ C W s src name, Inv C W none s → (C = [] ∨ name = 0 ∨ 100 ≤ src) →
+  ∀ C W s src name, Inv C W none s → (C = [] ∨ name = 0 ∨ QSrc src name) →
     Ok (f s src name) (Inv C W none (f s src name) ∧ G s (f s src name))
 
 def IUa (f : State → Nat → State) : Prop :=
@@ -511,12 +511,12 @@ theorem deleteThread_inv_succ {fuel : Nat} (hcw : ICwa (cancelWaitingAll fuel)) 
       have i3 := cancelEvents_inv i2 t
       have g3 : Gone (cancelEvents (notifyDelete (stopStep (cancelWaitingAll fuel)
           (s.setTh t fun th => { th with hasVM := false }) t th) t) t) t := g2
-      refine (hur C W _ t nameDelete i3 (Or.inr (Or.inr ht))).bind ?_ (fun p4 => ?_)
+      refine (hur C W _ t nameDelete i3 (Or.inr (Or.inr ⟨ht, Or.inl rfl⟩))).bind ?_ (fun p4 => ?_)
       · exact (((P.ur _ _ _).trans (P.ua _ _)).trans (P.cwa _ _)).trans (finishDelete_pres _ _)
-      have g4 := g3.of_q (Qq.ur [] _ t nameDelete i3.n (Or.inr ht))
-      refine (hur C W _ t nameRemove p4.1 (Or.inr (Or.inr ht))).bind ?_ (fun p5 => ?_)
+      have g4 := g3.of_q (Qq.ur [] _ t nameDelete i3.n (Or.inr ⟨ht, Or.inl rfl⟩))
+      refine (hur C W _ t nameRemove p4.1 (Or.inr (Or.inr ⟨ht, Or.inr rfl⟩))).bind ?_ (fun p5 => ?_)
       · exact ((P.ua _ _).trans (P.cwa _ _)).trans (finishDelete_pres _ _)
-      have g5 := g4.of_q (Qq.ur [] _ t nameRemove p4.1.n (Or.inr ht))
+      have g5 := g4.of_q (Qq.ur [] _ t nameRemove p4.1.n (Or.inr ⟨ht, Or.inr rfl⟩))
       refine (hua C W _ t p5.1).bind ?_ (fun p6 => ?_)
       · exact (P.cwa _ _).trans (finishDelete_pres _ _)
       have g6 := g5.of_q (Qq.ua [] _ t p5.1.n)
